@@ -199,7 +199,7 @@ func c11Multi(c *Ctx, cond string, tags []string, cands []string, rg *mon.Rng, l
 
 func c11Bodies(limit int) []string {
 	atoms := []string{"a", "b", "ab", `\.`, ".", "[ab]", "[a-c]", "[^a]", `\d`, "/", "(a)", "(?:b)", "(a|b)", "(a|b|)", "(ab|c)", "(?i:a)", "(?i:1)",
-		"a?", "a*", "a+", "a{2}", "a{1,2}", "a{2,}", "[ab]{2}", "(a|b)?", "(ab)+", "a{3}", "(ab){3}", "a{2,3}", "b{4}", "(a|b){3}", "(?:ab){2}", "(?s:.)", "(?U:a+)", `\b`, "^", "$", "(?m:^)", "(?m:$)", "[[:digit:]]", "é", `\x61`, "a|", "()"}
+		"a?", "a*", "a+", "a{2}", "a{1,2}", "a{2,}", "[ab]{2}", "(a|b)?", "(ab)+", "a{3}", "(ab){3}", "a{2,3}", "b{4}", "(a|b){3}", "(?:ab){2}", "(?:ab|ba)", "(?:a|bc)", "((?i)ab)c", "x(?:a|(?i)bc)", "(?:a(?i:b)|c)", "(?:(?:ab|c)|b)", "(?s:.)", "(?U:a+)", `\b`, "^", "$", "(?m:^)", "(?m:$)", "[[:digit:]]", "é", `\x61`, "a|", "()"}
 	seen := map[string]bool{}
 	var out []string
 	add := func(s string) {
@@ -242,7 +242,7 @@ func init() { Registry["C11"] = checkC11 }
 
 func checkC11(c *Ctx) (string, bool, []string) {
 	r := c.R
-	rule := "regex sources = prefix decoration x body x suffix decoration (12 x N x 6, both =~ and !~), bodies enumerated from 43 atoms (literals, classes, groups, alternation with empty branch, ? * + {n} {n,m} {n,}, scoped flags, inner anchors) combined up to 3 deep; alternations and class products of 99/100/101 members; random conditions of 1-3 predicates joined by AND/OR with parentheses. Each rewritten condition is compared with the original on every string of length <=4 (<=5 on a sixteenth of them in thorough) over {a,b,c,z,A,\\n,0,1} plus every substituted literal. Non-trivial = the rewrite changed the condition; distinct by (operator, regex)."
+	rule := "regex sources = prefix decoration x body x suffix decoration (12 x N x 6, both =~ and !~), bodies enumerated from 49 atoms (literals, classes, groups, alternation with empty branch, ? * + {n} {n,m} {n,}, scoped flags, inner anchors) combined up to 3 deep; alternations and class products of 99/100/101 members; random conditions of 1-3 predicates joined by AND/OR with parentheses. Each rewritten condition is compared with the original on every string of length <=4 (<=5 on a sixteenth of them in thorough) over {a,b,c,z,A,\\n,0,1} plus every substituted literal. Non-trivial = the rewrite changed the condition; distinct by (operator, regex)."
 	assume := []string{"Go's regexp matcher through EvalBool is the meaning of the original condition", "language equality is decided up to the stated string length; substituted literals are checked individually whatever their length"}
 	cands := c11Candidates(4)
 	cands5 := c11Candidates(c.N(4, 5))
